@@ -252,6 +252,33 @@ class Color(enum.Enum):
   BLUE = 'blue'
 
 
+class Level(enum.IntEnum):
+  LOW = 1
+  HIGH = 2
+
+
+class Mode(str, enum.Enum):
+  FAST = 'fast'
+  SLOW = 'slow'
+
+
+class Flags(enum.IntFlag):
+  A = 1
+  B = 2
+
+
+class MyInt(int):
+  pass
+
+
+class MyStr(str):
+  pass
+
+
+class MyFloat(float):
+  pass
+
+
 NT = collections.namedtuple('NT', ['x', 'y'])
 
 
@@ -282,6 +309,8 @@ def leaf_values(rng):
       ('bool-none', lambda: rng.choice([True, False, None])),
       ('str', rstr), ('bytes', rbytes),
       ('enum', lambda: rng.choice(list(Color))),
+      ('enum-mixin', lambda: rng.choice([Level.HIGH, Mode.SLOW, Flags.A | Flags.B, Flags.B])),
+      ('primitive-subclass', lambda: rng.choice([MyInt(5), MyStr('s'), MyFloat(2.5)])),
       ('set', lambda: set(rng.sample(range(50), rng.randint(0, 4)))),
       ('frozenset', lambda: frozenset(rng.sample(['a', 'b', 'c', 1, 2], rng.randint(0, 4)))),
       ('slice', lambda: slice(rng.choice([None, 1]), rng.choice([None, 5]), rng.choice([None, 2]))),
